@@ -44,6 +44,7 @@ func (s *verifSrc) Read(buf []byte) (int, error) {
 		s.sawErr = true
 	}
 	if n > 0 {
+		verifFill(buf[:n])
 		verifRopeAppend(s.produced, buf[:n])
 		s.total += n
 	}
